@@ -165,3 +165,38 @@ Definition cut_result (k : nat) (hs ps : list str) : res (str * option str) :=
 
 (* the message cut after its first n characters *)
 Definition cut_chars (n : nat) (hs ps ss : list str) : str := firstn n (wrap hs ps ss).
+
+(* ---- side conditions used by the C19 statements (specification-level) ---- *)
+Definition no_lf (l : str) : Prop := ~ In LF l.               (* a line: no "\n" inside *)
+Definition no_cr_end (l : str) : Prop := last l 0%N <> CR.    (* ... and not ending in "\r" *)
+Definition no_dash_start (l : str) : Prop := hd 0%N l <> DASH.  (* needs no dash-escaping *)
+
+(* what str::lines() makes of a line that was terminated by "\n": one trailing "\r" is dropped *)
+Definition chomp_cr (l : str) : str :=
+  match strip_suffix_char CR l with Some l' => l' | None => l end.
+
+(* is_prefix p l: l starts with p *)
+Fixpoint is_prefix (p l : str) : bool :=
+  match p, l with
+  | [], _ => true
+  | a :: p', b :: l' => (a =? b)%N && is_prefix p' l'
+  | _ :: _, [] => false
+  end.
+
+(* The domain of C19: header, payload and signature lines are lines (no "\n" inside) terminated
+   by "\n" alone (none ends in "\r"); armour headers are non-empty (an empty one would be the
+   separator); payload lines need no dash-escaping; no signature line is the end marker. *)
+Definition pgp_dom (hs ps ss : list str) : Prop :=
+  Forall no_lf (hs ++ ps ++ ss) /\ Forall no_cr_end (hs ++ ps ++ ss) /\
+  Forall (fun l => l <> []) hs /\ Forall no_dash_start ps /\ Forall (fun l => l <> END_SIG) ss.
+
+(* The wider domain on which the result is still determined: lines may end in "\r" (CRLF line
+   ends); the side conditions then apply to the lines as lines() yields them. *)
+Definition pgp_dom_cr (hs ps ss : list str) : Prop :=
+  Forall no_lf (hs ++ ps ++ ss) /\
+  Forall (fun l => chomp_cr l <> []) hs /\ Forall (fun l => chomp_cr l <> BEGIN_SIG) ps /\
+  Forall (fun l => chomp_cr l <> END_SIG) ss.
+
+(* s begins with the signed-message marker as a complete first line *)
+Definition marker_first_line (s : str) : Prop :=
+  s = BEGIN_SIGNED \/ (exists r, s = BEGIN_SIGNED ++ LF :: r) \/ (exists r, s = BEGIN_SIGNED ++ CR :: LF :: r).
